@@ -12,7 +12,9 @@ RULE = ("(a) seeded random continua, 2-5 annotators, pooled dissimilarities; (b)
         "22500, 33750, 50625: a cluster of near-identical units makes every tuple pass, far-apart units add exactly "
         "one candidate each), 2 and 3 annotators; (c) an exact-arithmetic family (dyadic costs) in which tuples sit "
         "exactly on the cut; (d) extreme delta_empty values (3e-7 .. 1e4); (e) sessions: candidates, an edit of the same "
-        "continuum object (add_annotator, merge of a unit-less annotator, add, remove), candidates again.  Each result is compared with the full enumeration of all index tuples.  Every case "
+        "continuum object (add_annotator, merge of a unit-less annotator, add, remove, a far unit added and removed), candidates "
+        "again; (f) continua with open-ended units (end = inf: every pair dissimilarity with them is nan, and a nan disorder "
+        "is not 'at most' the cut).  Each result is compared with the full enumeration of all index tuples.  Every case "
         "runs in a default build or a NUMBA_BOUNDSCHECK=1 build (alternating shards; boundary cases in both). "
         "non-trivial = at least 2 candidates expected; distinct by SHA-1 of the case")
 ASSUMPTIONS = [
@@ -126,6 +128,11 @@ def check_case(ctx, case, continuum=None):
     else:
         must_in = flat < cut * (1 - 1e-5)
         must_out = flat > cut * (1 + 1e-5)
+    # a combination whose disorder is not a number (a pair dissimilarity is nan: open-ended units) is not "at most" the cut
+    nan = np.isnan(flat)
+    if nan.any():
+        ctx.observe("tuples_with_nan_disorder", int(min(9, nan.sum())))
+        must_out = must_out | nan
     must_in[empty_lin] = False
     must_out[empty_lin] = False
     missing = np.where(must_in & ~present)[0]
@@ -218,6 +225,22 @@ def run(ctx):
         case = {"continuum": cspec, "dissim": dspec, "session": ops}
         ctx.begin_case(case)
         ctx.observe("family", "session")
+        check_case(ctx, case)
+    # (f) open-ended units (Segment(start, inf), which Continuum.add accepts): their positional dissimilarity to any unit
+    # is not a number, so they can only be aligned with empty units
+    open_d = [{"kind": "positional", "delta": 1.0}, {"kind": "combined", "alpha": 1.0, "beta": 1.0, "delta": 2.0, "pos": None, "cat": None},
+              {"kind": "absolute", "delta": 1.0}]
+    for i in range(ctx.scale(30, 400)):
+        n = rng.randint(2, 4)
+        cspec = cases.gen_continuum(rng, n_annot=n, max_units={2: 10, 3: 6, 4: 4}[n], min_total=3, allow_empty=False,
+                                    family=rng.choice(["grid", "dyadic", "touching", "dense", "generic"]), labels=cases.LABELS_SMALL)
+        for a in rng.sample(sorted(cspec["ann"]), rng.randint(1, n)):
+            us = cspec["ann"][a]
+            j = max(range(len(us)), key=lambda t: us[t][0])
+            us[j][1] = float("inf")
+        case = {"continuum": cspec, "dissim": open_d[i % 3]}
+        ctx.begin_case(case)
+        ctx.observe("family", "open-ended")
         check_case(ctx, case)
     # (a) random
     dspecs = cases.gen_pool_specs(rng, ctx.scale(10, 24))
